@@ -464,7 +464,6 @@ int main(int argc, char** argv)
     vx::par_for(cfgs.size() * SPLIT, 1, [&](uint64_t lo, uint64_t hi, unsigned) {
         for (uint64_t i = lo; i < hi; i++) {
             if (vx::deadline_reached()) { cut = true; continue; }
-            if (const char* only = getenv("C33_ONLY_UNIT")) { if ((uint64_t)atoi(only) != i) continue; } // profiling aid only
             timespec t0, t1; clock_gettime(CLOCK_THREAD_CPUTIME_ID, &t0);
             run_cfg((int)(i / SPLIT), SPLIT == 1 ? 0 : 1 + (int)(i % SPLIT), cfgs[i / SPLIT], unit_stats[i], nullptr, false);
             clock_gettime(CLOCK_THREAD_CPUTIME_ID, &t1);
